@@ -74,6 +74,10 @@ func c02Programs(ctx *Ctx) [][]tStmt {
 		{{Op: "outE"}, {Op: "out"}, {Op: "path"}},
 		{{Op: "outE"}, {Op: "hasLabel", Strs: []string{"knows"}}, {Op: "out"}},
 		{{Op: "both"}, {Op: "count"}}, {{Op: "bothE"}},
+		// a mark name taken twice, read in between and afterwards
+		{{Op: "as", Str: "m"}, {Op: "out"}, {Op: "has", Has: mname}, {Op: "out"}, {Op: "as", Str: "m"}, {Op: "count"}},
+		{{Op: "as", Str: "m"}, {Op: "out"}, {Op: "render", Tpl: map[string]interface{}{"n": "$m.name"}}, {Op: "as", Str: "m"}},
+		{{Op: "as", Str: "m"}, {Op: "out"}, {Op: "as", Str: "m"}, {Op: "out"}, {Op: "has", Has: mname}},
 	}
 	out := [][]tStmt{}
 	for _, s := range starts {
@@ -90,20 +94,36 @@ func c02Programs(ctx *Ctx) [][]tStmt {
 
 func runC02(ctx *Ctx) error {
 	ctx.EvalMod = "Eval_C02"
-	ctx.CaseTy = "c01_case"
+	ctx.CaseTy = "c02_case"
 	ctx.Shard = 150
 	ctx.HasKF = true
-	ctx.Rule = "production compiler (index-start rewrite + load elision) vs the literal semantics: 28 start shapes (every spelling of a leading label / id filter, duplicated labels and ids, and()-wrapped forms, negated forms, filters after a move, after a window and after a mark) x 22 tails that read properties of the current element, of earlier steps and of marks (has/render/select/fields/unwind/distinct/hasKey/path over vertex and edge marks), on the fixed graph and on random graphs, plus the C01 random program space; non-trivial = well typed with >= 1 row; distinct by (graph, program)"
+	ctx.Rule = "(a0) inspect.PipelineSteps / PipelineStepOutputs on ~500 random programs of <= 8 statements that read properties directly, through marks (also one name marked twice, undefined names, $__current__), in has/hasKey/distinct/unwind/fields/render, behind moves, counts, selects and windows, against Model/LoadPlan.v, and the observed outputs against the covering predicate of C02_loads_cover; non-trivial = some step is elided; (a) the statement list core.IndexStartOptimize returns for filter runs in every shape the rewrite distinguishes (hasId/hasLabel with duplicates and empty lists, has() on _gid/_label under every key spelling, operator and argument type, nested/empty and(), or(), not(), unset; every single filter in four positions plus random runs of <= 4 after V()/V(ids)/E()) against the list Model/Optimize.v computes, and the plan's meaning in the model on a graph with unique vertex ids; non-trivial = the plan differs from the program; (b) production compiler (index-start rewrite + load elision) vs the literal semantics: 28 start shapes (every spelling of a leading label / id filter, duplicated labels and ids, and()-wrapped forms, negated forms, filters after a move, after a window and after a mark) x 22 tails that read properties of the current element, of earlier steps and of marks (has/render/select/fields/unwind/distinct/hasKey/path over vertex and edge marks), on the fixed graph and on random graphs, plus the C01 random program space; non-trivial = well typed with >= 1 row; distinct by (graph, program)"
 	var inputs []c01Input
 	if ctx.Replay != nil {
 		var in c01Input
 		if err := json.Unmarshal(ctx.Replay, &in); err != nil {
 			return err
 		}
+		if in.Driver == "plan" {
+			addPlanCases(ctx, []tGraph{in.Graph}, [][]tStmt{in.Prog})
+			return nil
+		}
+		if in.Driver == "load" {
+			addLoadCases(ctx, [][]tStmt{in.Prog})
+			return nil
+		}
 		inputs = []c01Input{in}
 	} else {
 		fg := fixedGraph()
 		progs := c02Programs(ctx)
+		planGraphs := []tGraph{fg}
+		for len(planGraphs) < 4 {
+			if g := randGraph(ctx.Rng); uniqueVertexIDs(g) {
+				planGraphs = append(planGraphs, g)
+			}
+		}
+		addPlanCases(ctx, planGraphs, append(c02PlanPrograms(ctx), progs...))
+		addLoadCases(ctx, append(c02LoadPrograms(ctx), progs...))
 		for _, p := range progs {
 			inputs = append(inputs, c01Input{Driver: "badger", Graph: fg, Prog: p})
 		}
@@ -148,7 +168,7 @@ func runC02(ctx *Ctx) error {
 			backend = "backend=wrapper honouring the load hint"
 			in.Driver = "badger+honour"
 		}
-		c := coq.Record("cgraph", in.Graph.coq(), "cprog", progCoq(in.Prog), "cobs", outcomeCoq(o))
+		c := "(CRows " + coq.Record("cgraph", in.Graph.coq(), "cprog", progCoq(in.Prog), "cobs", outcomeCoq(o)) + ")"
 		key, _ := json.Marshal(in)
 		tags := []string{"len=" + bucket(len(in.Prog)), backend}
 		if o.Rejected {
